@@ -83,7 +83,7 @@ func randomHistory(rng *rand.Rand, maxRevs, nObj int) history {
 			for i := range ops {
 				st[i] = applyOp(st[i], ops[i])
 			}
-			h = append(h, rev{K: kind, O: ops})
+			h = append(h, rev{K: kind, O: ops, T: randomTrailer(rng)})
 			break
 		}
 	}
@@ -114,7 +114,7 @@ func enumerate(nRev, nObj int, visit func(history)) {
 					for j := range st {
 						ns[j] = applyOp(st[j], ops[j])
 					}
-					rec(append(h, rev{K: kind, O: append([]string(nil), ops...)}), ns)
+					rec(append(h, rev{K: kind, O: append([]string(nil), ops...), T: fullTrailer}), ns)
 					return
 				}
 				for _, op := range opNames {
@@ -128,4 +128,26 @@ func enumerate(nRev, nObj int, visit func(history)) {
 		}
 	}
 	rec(nil, make([]objState, nObj))
+}
+
+// randomTrailer draws the optional keys of a revision's trailer.
+func randomTrailer(rng *rand.Rand) []string {
+	t := []string{}
+	if rng.Intn(3) != 0 {
+		t = append(t, "Info")
+	}
+	if rng.Intn(3) != 0 {
+		t = append(t, "XX")
+	}
+	return t
+}
+
+// withTrailers gives every revision of h trailer keys drawn from rng.
+func withTrailers(h history, rng *rand.Rand) history {
+	out := make(history, len(h))
+	for i, r := range h {
+		r.T = randomTrailer(rng)
+		out[i] = r
+	}
+	return out
 }
